@@ -771,7 +771,10 @@ def strsOf : List Val → Option (List String)
   | .str s :: r => (strsOf r).map (s :: ·)
   | _ :: _ => none
 
-/-- a grouping operator applied to an iterable of values -/
+/-- the grouping operators as they were BEFORE the library repairs 94aa9ad (`$min` / `$max` by
+    BSON order) and 2f66991 (`$sum` / `$avg` ignore booleans).  Kept under its old name and
+    meaning only because MongoModel/Pipeline.lean (`accApply`) and Proofs/C03* still refer to it;
+    the expression evaluator uses `groupingList` below, which follows the repaired code. -/
 def groupingOnList (op : String) (xs : List Val) : R Val :=
   if op = "$sum" then do (← sumNums (numsOf xs) (.i 0)).toVal
   else if op = "$avg" then
@@ -794,13 +797,57 @@ def groupingOnList (op : String) (xs : List Val) : R Val :=
   else if op = "$last" then .ok (xs.getLast?.getD .null)
   else .error .notImpl
 
+/-- `isinstance(v, numbers.Number) and not isinstance(v, bool)` (`_sum_operation`,
+    `_avg_operation`, aggregate.py:188-215) -/
+def toPyNumNB : Val → Option PyNum
+  | .int n => some (.i n)
+  | .dbl m e => some (.f m e)
+  | _ => none
+
+/-- the values `$sum` / `$avg` keep: numbers, booleans excluded; everything else is ignored -/
+def numsOfNB : List Val → List PyNum
+  | [] => []
+  | v :: r => match toPyNumNB v with | some n => n :: numsOfNB r | none => numsOfNB r
+
+/-- `max(values, key=filtering.BsonComparable)` / `min(…)` (`_group_operation`,
+    aggregate.py:195-199).  CPython keeps the first extremal item: `max` replaces the best item
+    when `key(v) > key(best)`, which `BsonComparable` (it only has `__lt__`) answers by the
+    reflected `key(best) < key(v)` = `bson_compare(lt, best, v)`; `min` replaces it when
+    `key(v) < key(best)` = `bson_compare(lt, v, best)`. -/
+def bsonExtremum (isMax : Bool) : List Val → Val → R Val
+  | [], best => .ok best
+  | v :: r, best =>
+    match (if isMax then bsonCompare .lt best v true else bsonCompare .lt v best true) with
+    | .error e => .error e
+    | .ok lt => bsonExtremum isMax r (if lt then v else best)
+
+/-- `_GROUPING_OPERATOR_MAP[op](values)` on an iterable of values (aggregate.py:188-234):
+    `$sum` / `$avg` over the numbers that are not booleans, `$min` / `$max` over the values that
+    are not None in the BSON order, `$first` / `$last` by position -/
+def groupingList (op : String) (xs : List Val) : R Val :=
+  if op = "$sum" then do (← sumNums (numsOfNB xs) (.i 0)).toVal
+  else if op = "$avg" then
+    let ns := numsOfNB xs
+    if ns.isEmpty then .ok .null
+    else do
+      let s ← sumNums ns (.i 0)
+      -- `sum(values_list) / float(len(values_list))`
+      pyDivide s (.f ns.length 0)
+  else if op = "$min" || op = "$max" then
+    match xs.filter (fun v => !isNull v) with
+    | [] => .ok .null
+    | y :: r => bsonExtremum (op = "$max") r y
+  else if op = "$first" then .ok (xs.head?.getD .null)
+  else if op = "$last" then .ok (xs.getLast?.getD .null)
+  else .error .notImpl
+
 /-- the grouping operators as expression operators: `$avg` divides `sum(values)` by the float
     `len(values)`, so an int sum that `float()` rounds has no answer in this model (as in
     `pyTrueDiv`) -/
 def groupingInExpr (op : String) (xs : List Val) : R Val :=
   if op = "$avg" &&
-      (match sumNums (numsOf xs) (.i 0) with | .ok s => s.roundedByFloat | .error _ => false)
-  then unmodelled else groupingOnList op xs
+      (match sumNums (numsOfNB xs) (.i 0) with | .ok s => s.roundedByFloat | .error _ => false)
+  then unmodelled else groupingList op xs
 
 /-- the operator applied to `self.parse(values)` (string argument) -/
 def groupingOnValue (op : String) (v : Val) : R Val :=
